@@ -597,6 +597,10 @@ class Program(object):
         for u in self.units:
             ix = self.index[u.path]
             for name, fn in ix.functions.items():
+                if fn_body(fn) is not None and fn.get('_file'):
+                    from . import common
+                    f = fn['_file']
+                    common.FUNCTION_LOCATIONS.setdefault(name, (f[len(REPO) + 1:] if f.startswith(REPO + '/') else f, fn.get('_line')))
                 if fn.get('storageClass') == 'static':
                     continue
                 self.fn_unit.setdefault(name, ix)
